@@ -6,9 +6,9 @@
    lexer for every token the lexer emits, adjacent tokens cannot fuse), the re-flow keeps
    paragraphs and is a fixed point. *)
 From Coq Require Import String List NArith ZArith Bool.
-From J5V.lib Require Import Text Outcome.
+From J5V.lib Require Import Text Outcome GoExpr.
 From J5V.model Require Import BclLexer BclParser BclFmt BclCli.
-From J5V.proofs Require Import BclPosProofs BclLexerProofs BclParserProofs BclFmtProofs BclFmtLitProofs BclReflowProofs BclLexLitProofs BclFmtSeqProofs BclFragWfProofs BclFmtLineProofs BclWalkBackProofs BclFmtFileProofs BclDescGapProofs BclFmtRoundProofs BclFmtIdemProofs BclDocProofs BclUtf8Proofs BclRuneClosedProofs BclFmtBytesProofs BclDocBytesProofs BclCliProofs.
+From J5V.proofs Require Import BclPosProofs BclLexerProofs BclParserProofs BclFmtProofs BclFmtLitProofs BclReflowProofs BclLexLitProofs BclFmtSeqProofs BclFragWfProofs BclFmtLineProofs BclWalkBackProofs BclFmtFileProofs BclDescGapProofs BclFmtRoundProofs BclFmtIdemProofs BclDocProofs BclUtf8Proofs BclRuneClosedProofs BclFmtBytesProofs BclDocBytesProofs BclCliProofs BclIdentExactProofs BclFmtGenProofs BclFmtGenAllProofs BclFmtGenAll2Proofs BclFmtGenAll3Proofs.
 (* after the proofs: doc_of / value_doc / tag_doc below are the declarative ones of model/BclDoc.v *)
 From J5V.model Require Import BclDoc.
 Import ListNotations.
@@ -80,6 +80,15 @@ Theorem C09_ident_separation : forall c r tail s,
   exists typ, (typ = IDENT \/ typ = BOOL) /\ lexes_to s typ (c :: r) tail.
 Proof. exact relex_ident. Qed.
 Print Assumptions C09_ident_separation.
+
+(* ... with the exact type: BOOL for the spellings true / false, IDENT otherwise (what the lexer does, and what
+   the walker's as_ident undoes where an identifier is expected) *)
+Theorem C09_ident_exact_type : forall c r tail s,
+  ident_start c -> forallb ident_char r = true -> not_extending ident_char tail ->
+  rest s = (c :: r) ++ tail ->
+  lexes_to s (if (list_N_eqb (c :: r) lit_true || list_N_eqb (c :: r) lit_false)%bool then BOOL else IDENT) (c :: r) tail.
+Proof. exact relex_ident_exact. Qed.
+Print Assumptions C09_ident_exact_type.
 
 Theorem C09_int_separation : forall c r tail s,
   number_start c -> forallb is_digit r = true ->
@@ -295,6 +304,32 @@ Theorem C09_cli_write_keeps_documents : forall t, NoDup (map fst t) ->
       map doc_of fs' = map doc_of fs /\ fmt_bytes d' = Ok d'.
 Proof. exact fmt_dir_write_keeps_documents. Qed.
 Print Assumptions C09_cli_write_keeps_documents.
+
+(* ---- the model is the code (tie) ---------------------------------------------------------------------- *)
+(* tokenSource: for every token type and every literal, the model's text is the arm of the Go switch (gen/BclFmtGen.v:
+   the returned expressions as lib/GoExpr terms, the stringEscaper pairs), evaluated; Fmt's loop likewise *)
+Theorem C09_token_source_is_the_code : forall t l,
+  VS (token_source (mkTok t l pos0 pos0)) = ev [("tok.Lit"%string, VS l)] (arm_for t).
+Proof. exact token_source_all. Qed.
+Print Assumptions C09_token_source_is_the_code.
+
+Theorem C09_fmt_loop_is_the_code : forall ds,
+  fmt_join_tab ds 0 (ev [] (assign_of "fmt.go:Fmt"%string 1)) = fmt_join ds true (-1).
+Proof. exact fmt_runes_join_all. Qed.
+Print Assumptions C09_fmt_loop_is_the_code.
+
+Theorem C09_description_layout_is_the_code : forall indent d,
+  multi_tab indent (dsstart d) (dsend d)
+    (match reformat_description (dvalue d) (width_tab indent) with [] => [[]] | o => o end) = Some (description_diff indent d).
+Proof. exact description_diff_all. Qed.
+Print Assumptions C09_description_layout_is_the_code.
+
+Theorem C09_reflow_is_the_code : forall input maxw,
+  reformat_tab maxw (split_on 10 input) []
+    (is_true (ev [("true"%string, VB true)] (assign_of "description.go:reformatDescription"%string 3))) []
+  = reformat_description input maxw.
+Proof. exact reformat_description_all. Qed.
+Print Assumptions C09_reflow_is_the_code.
 
 (* non-vacuity: a string with every escapable rune, a regex with slashes, nested array, trailing
    comment, description: accepted, formatted, the output accepted with the same document, and a
